@@ -8,7 +8,8 @@ from . import acegen as G
 ADDR_P = ["any", "host", "wild:0.0.0.255", "wild:0.0.1.3", "wild:0.0.0.1", "prefix:24", "wild:128.0.0.1", "ones"]
 ADDR_G = ["groupm:0.0.0.255", "groupm:0.0.0.0+0.0.1.3", "groupm:0.0.0.0+0.0.0.0", "group"]
 PORT_P = ["none", "eq1", "eq2", "range", "gt", "lt", "neq1"]
-PROTO_P = ["ip", "tcp", "udp", "icmp"]
+PROTO_P = ["ip", "tcp", "udp", "icmp", "nsym"]      # nsym: a numeric protocol, symbolic over 0..255 (single-field rows)
+PROTO_X = ["ip", "tcp", "udp", "icmp"]
 FLAGS_P = [[], ["ack"], ["fin"], ["psh"], ["rst"], ["syn"], ["urg"], ["ack", "syn"], ["ack", "fin", "psh", "rst", "syn", "urg"]]
 FLAGS_X = [[], ["ack"], ["urg"], ["ack", "syn"]]       # cross-field rows
 LOG_P = ["", "log"]
@@ -100,6 +101,7 @@ def rows(t, seed, groups=True, candidates=30, bias_true=True):
         cross[side + "sa"] = cross[side + "da"] = CROSS_ADDR + (CROSS_ADDR_G if groups else [])
         cross[side + "sp"] = cross[side + "dp"] = CROSS_PORT
         cross[side + "flags"] = FLAGS_X
+        cross[side + "proto"] = PROTO_X
     arr, info = covering_array(cross, t=t, seed=seed, valid=cheap, candidates=candidates)
     out += arr
     if bias_true:
